@@ -79,7 +79,7 @@ def build(sh, v, aslist=False):
             arr = np.array([[num(c) for c in row] for row in items], dtype=int if isint else float)
             return arr.reshape((len(items), k))
         return np.array([num(x) for x in items], dtype=int if esh[0] == "Int" else (bool if esh[0] == "Bool" else float))
-    raise ValueError("cannot build %r" % (sh,))
+    raise ValueError("cannot build %r (dictionary parameters are not projected from counter-models: not replayable)" % (sh,))
 
 
 class Timeout(Exception):
